@@ -421,15 +421,18 @@ def seize (s : State) (p : Product) (e : Env) (vaultId : Nat) : Option State :=
                   vaultIds := updL s1.vaultIds p.id ((s1.vaultIds p.id).erase v.id) }
   | _, _ => none
 
-/-- the vault-side bookkeeping when the auction of a seized vault closes (x/auctionsV2/keeper/bid.go:93,188-190): the
-product's collateral total is reduced by the seized collateral and its minted total by `TargetDebt − penalty`, i.e. by
-principal + interest + closing fee (NOT by the principal alone — recorded finding D13). What the auction does with the
-bidders' coins, the penalty and the burn is the subject of C10; no vault-module balance moves here. -/
-def settle (s : State) (vaultId : Nat) : Option State :=
+/-- the vault-side bookkeeping when the auction of a seized vault closes (x/auctionsV2/keeper/bid.go:89-101,188-190): the
+auction burns `TargetDebt − penalty` = principal + interest + closing fee of the debt asset, the product's collateral
+total is reduced by the seized collateral and its minted total by the SAME burnt amount (NOT by the principal alone —
+recorded finding D13). What the auction does with the bidders' coins and the penalty is the subject of C10; no
+vault-module balance moves here. -/
+def settle (s : State) (p : Product) (vaultId : Nat) : Option State :=
   match s.locked.find? (·.vaultId = vaultId) with
   | none => none
   | some l =>
-    some { s with locked := s.locked.filter (·.vaultId ≠ vaultId),
+    if l.product ≠ p.id then none else
+    some { s with locked := s.locked.erase l,
+                  supply := upd1 s.supply p.denomOut (s.supply p.denomOut - l.debt),
                   coll := upd1 s.coll l.product (s.coll l.product - l.amountIn),
                   minted := upd1 s.minted l.product (s.minted l.product - l.debt) }
 
@@ -439,7 +442,8 @@ def Msg.product (s : State) : Msg → Option Nat
   | .close _ _ pr _ | .depositAndDraw _ _ pr _ _ | .stableCreate _ _ pr _ | .stableDeposit _ _ pr _ _
   | .stableWithdraw _ _ pr _ _ => some pr
   | .interestCalc _ v | .seize v => (findVault s v).map (·.product)
-  | .donate .. | .fund .. | .settle .. => none
+  | .settle v => (s.locked.find? (·.vaultId = v)).map (·.product)
+  | .donate .. | .fund .. => none
 
 def stepP (s : State) (p : Product) (e : Env) : Msg → Option State
   | .create f a pr i o => create s p e f a pr i o
@@ -456,7 +460,7 @@ def stepP (s : State) (p : Product) (e : Env) : Msg → Option State
   | .seize v => seize s p e v
   | .donate f d x => donate s f d x
   | .fund t d x => fund s t d x
-  | .settle v => settle s v
+  | .settle v => settle s p v
 
 /-- one message; `cfg` is the static product configuration (extended pair vaults). A message naming an unknown
 product is rejected (`ErrorExtendedPairVaultDoesNotExists`). -/
@@ -464,7 +468,6 @@ def step (cfg : Nat → Option Product) (s : State) (e : Env) (m : Msg) : Option
   match m with
   | .donate f d x => donate s f d x
   | .fund t d x => fund s t d x
-  | .settle v => settle s v
   | _ =>
     match m.product s with
     | none => none
@@ -524,6 +527,25 @@ instance (s : State) : Decidable (CountOk s) := by unfold CountOk; infer_instanc
 instance (s : State) (p : Nat) : Decidable (TotalsAt s p) := by unfold TotalsAt; infer_instance
 instance (cfg) (s : State) (d : Nat) : Decidable (SupplyAt cfg s d) := by unfold SupplyAt; infer_instance
 
+/-- offsets of the four ledger equations (all zero in histories without auction settlement; `mint` and `sup` become
+negative once an auction of a vault with accrued interest or a closing fee has settled — finding D13) -/
+structure Gaps where
+  cus  : Nat → Int := fun _ => 0
+  cnt  : Int := 0
+  coll : Nat → Int := fun _ => 0
+  mint : Nat → Int := fun _ => 0
+  sup  : Nat → Int := fun _ => 0
+
+def Gaps.zero : Gaps := {}
+
+def CustodyAtG (cfg : Nat → Option Product) (G : Gaps) (s : State) (d : Nat) : Prop :=
+  s.bal vm d = collRecorded cfg s d + s.unsolicited d + G.cus d
+def CountOkG (G : Gaps) (s : State) : Prop := s.length = s.vaults.length + G.cnt
+def TotalsAtG (G : Gaps) (s : State) (prod : Nat) : Prop :=
+  s.coll prod = collOfProduct s prod + G.coll prod ∧ s.minted prod = mintedOfProduct s prod + G.mint prod
+def SupplyAtG (cfg : Nat → Option Product) (G : Gaps) (s : State) (d : Nat) : Prop :=
+  s.supply d = principalRecorded cfg s d + s.extSupply d + G.sup d
+
 /-- record well-formedness: ids are unique and bounded by the counters, every record's product is configured,
 vault amounts are non-negative -/
 def Wf (cfg : Nat → Option Product) (s : State) : Prop :=
@@ -531,7 +553,7 @@ def Wf (cfg : Nat → Option Product) (s : State) : Prop :=
   (∀ v ∈ s.vaults, v.id ≤ s.nextVault ∧ (cfg v.product).isSome ∧
       0 ≤ v.amountIn ∧ 0 ≤ v.amountOut ∧ 0 ≤ v.interest ∧ 0 ≤ v.closingFee) ∧
   (s.stables.map (·.id)).Nodup ∧ (∀ v ∈ s.stables, v.id ≤ s.nextStable ∧ (cfg v.product).isSome) ∧
-  (∀ v ∈ s.locked, (cfg v.product).isSome)
+  (∀ v ∈ s.locked, (cfg v.product).isSome ∧ 0 ≤ v.amountOut ∧ v.amountOut ≤ v.debt)
 
 /-- C03: every open vault's principal is at least its product's debt floor, and the published principal of every
 product is at most its debt ceiling -/
@@ -539,7 +561,11 @@ def Limits (cfg : Nat → Option Product) (s : State) : Prop :=
   (∀ v ∈ s.vaults, ∀ p, cfg v.product = some p → p.debtFloor ≤ v.amountOut) ∧
   (∀ k p, cfg k = some p → s.minted k ≤ p.debtCeiling)
 
-/-- the whole inductive invariant -/
+/-- the inductive invariant, relative to fixed offsets `G` of the ledger equations -/
+def InvG (cfg : Nat → Option Product) (G : Gaps) (s : State) : Prop :=
+  Wf cfg s ∧ CountOkG G s ∧ (∀ d, CustodyAtG cfg G s d) ∧ (∀ p, TotalsAtG G s p) ∧ (∀ d, SupplyAtG cfg G s d) ∧ Limits cfg s
+
+/-- the whole inductive invariant (all offsets zero) -/
 def Inv (cfg : Nat → Option Product) (s : State) : Prop :=
   Wf cfg s ∧ CountOk s ∧ (∀ d, CustodyAt cfg s d) ∧ (∀ p, TotalsAt s p) ∧ (∀ d, SupplyAt cfg s d) ∧ Limits cfg s
 
